@@ -122,8 +122,12 @@ class _Cat:
         if ty == "inst":
             return ValueError("x")
         if ty == "fd":
-            # a *fresh* equal FrozenDict each time: equal-but-not-identical arguments
-            return self.FrozenDict(dict(self.fd[v]))
+            # a *fresh* equal FrozenDict each time, built in a rotating insertion order:
+            # equal-but-not-identical arguments (dict equality and hash ignore insertion order)
+            items = list(self.fd[v].items())
+            self._rot = getattr(self, "_rot", 0) + 1
+            k = self._rot % len(items) if items else 0
+            return self.FrozenDict(dict(items[k:] + items[:k]))
         if ty == "dict":
             return {self.A: self.B}
         if ty == "tuple":
